@@ -172,11 +172,15 @@ def in_situ(ctx):
                                sems="0,2,2", seed_off=31))
             runs.append(hc.Run(p, feats=["vo_bit"], name="los-vo", heap=12, workers=8, programs=20,
                                ops=200, sems="0,0,2,2", seed_off=32))
-    try:
-        from props import c12 as satb
-        if hasattr(satb, "satb_runs"):
-            runs += satb.satb_runs(ctx.tier)
-    except Exception:  # noqa: BLE001  (the concurrent-marking runs are optional here)
-        pass
     st = hc.execute(ctx, runs, ("C36:",))
     ctx.cov["in_situ"] = st
+    # Large objects allocated while concurrent marking is in progress go straight to the to-space
+    # (allocate-as-live): the concurrent-marking mode of C12 keeps such objects reachable over the
+    # following cycles; its traces are validated by Trace_SATB (EXTENDS HeapTrace, same C36 guards).
+    from props import c12 as satb
+    satb.prepare()
+    runs2 = satb.satb_runs(ctx.tier, seed_base=40)
+    if ctx.tier == "quick":
+        runs2 = runs2[:2]
+    ctx.cov["in_situ_concurrent_marking"] = hc.execute(ctx, runs2, ("C36:",), par_run=3, par_tlc=4,
+                                                       spec=satb.SATB_SPEC)
